@@ -52,6 +52,7 @@ func main() {
 		var all [][]e2e.EngStep
 		var allB [][]e2e.Step
 		wits := append(e2e.EngWitnesses(), e2e.EngOutDirWitnesses()...)
+		wits = append(wits, e2e.EngToolRenameWitness())
 		witH := make([][]e2e.EngStep, len(wits))
 		wg.Add(3 + len(wits))
 		go func() {
@@ -247,6 +248,10 @@ func oracle(c *lib.Ctx, i int, h []e2e.EngStep, k int) {
 	sort.Strings(labels)
 	for _, l := range labels {
 		if ok, why := e2e.OutputsEqual(st.Outputs[l], st.Clean[l]); !ok {
+			if e2e.ToolRenameStale(h, k, l) {
+				c.Fail(e2e.ToolRenameClass, fmt.Sprintf("%s after %v: incremental vs clean: %s", l, st.Edit, why), histJSON(i, h, k))
+				continue
+			}
 			c.Fail(e2e.StaleClass(st.Spec, l, st.Outputs, st.Clean), fmt.Sprintf("%s after %v: incremental vs clean: %s", l, st.Edit, why), histJSON(i, h, k))
 		}
 	}
